@@ -30,7 +30,7 @@ ASSUMPTIONS = [
 ]
 
 # crystals: interstitial sublattices + single-species networks (+ two local polar crystals, see chain1.EXTRA)
-NETS = ['FCC_O', 'FCC_T', 'FCC_OT', 'BCC_O', 'BCC_T', 'HCP_OT', 'HONEY', 'ROMEGA', 'RUMPLED2', 'WURTZ2', 'P1', 'P1_3', 'PMMM_G', 'P2MM_G', 'OBL3',
+NETS = ['FCC_O', 'FCC_T', 'FCC_OT', 'BCC_O', 'BCC_T', 'HCP_OT', 'HONEY', 'ROMEGA', 'RUMPLED2', 'WURTZ2', 'P1', 'P1_3', 'PMMM_G', 'P2MM_G', 'OBL3', 'TET4I',
         'RECTM', 'HEXM', 'KAGOME', 'POLAR4', 'PM2D', 'PYROPE']
 GF_ONLY = ('PYROPE',)
 GF_SKIP = (('RUMPLED2', 0), ('HEXM', 0))    # exact D singular (verified against the model in evaluate)
